@@ -48,7 +48,7 @@ template<uint32_t W, uint32_t G0, uint32_t PID, uint32_t OPT, bool ALLOW_EMPTY_F
 template<uint32_t W> static void assert_pool1(const World<W>& w) {
   BState<W> s; snapshot<W>(s, w.b);
   V_ASSERT(w.pl->block_count == 1 && w.pl->blocks.first() == w.b && w.pl->blocks.last() == w.b && w.pl->cursor == w.b, "pool: block list and cursor unchanged");
-  V_ASSERT(w.im->tree._root == w.b && w.b->_tree_left == nullptr && w.b->_tree_right == nullptr, "tree: unchanged");
+  V_ASSERT(w.im->tree._root == w.b && w.b->_tree_nodes[0] == nullptr && w.b->_tree_nodes[1] == nullptr, "tree: unchanged");
   V_ASSERT(w.pl->total_area_size[w.L] == 64 * W && w.pl->total_area_size[1 - w.L] == 0, "pool: reserved area = sum over blocks");
   V_ASSERT(w.pl->total_area_used[w.L] == s.area_used && w.pl->total_area_used[1 - w.L] == 0, "pool: used area = popcount of the used bits");
   V_ASSERT(w.pl->empty_block_count == ((s.flags & kFE) ? 1 : 0), "pool: empty_block_count = number of blocks flagged empty");
